@@ -418,12 +418,12 @@ impl<const N: usize> ScenN<N> {
         };
         while off < bytes.len() {
             let klen = match rd(off + 8) {
-                Some(k) => k as usize,
-                None => break,
+                Some(k) if k <= 65535 => k as usize,
+                _ => break, // not a record header (hole, garbage): stop, like the scan of the storage would fail here
             };
             let hsz = 57 + klen;
             let (ms, ds) = match (rd(off + 16 + klen), rd(off + 24 + klen)) {
-                (Some(m), Some(d)) => (m as usize, d as usize),
+                (Some(m), Some(d)) if m < (1 << 40) && d < (1 << 40) => (m as usize, d as usize),
                 _ => break,
             };
             out.push((off, hsz, ms, ds));
